@@ -37,6 +37,7 @@ static int vid(const void *s, size_t n) {
 }
 static struct { void *p; int id; size_t n; } kept[64];
 static int nkept;
+static int copybad;        /* copies handed to removeobj that were altered or released by the library */
 static void keep(void *p, int id, size_t n) {
     if (!p) return;
     if (nkept < 64 && id > 0) { kept[nkept].p = p; kept[nkept].id = id; kept[nkept].n = n; nkept++; } else free(p);
@@ -45,6 +46,7 @@ static int check_kept(void) {
     int ok = 1;
     for (int k = 0; k < nkept; k++) { if (vid(kept[k].p, kept[k].n) != kept[k].id) ok = 0; free(kept[k].p); }
     nkept = 0;
+    if (copybad) { ok = 0; copybad = 0; }
     return ok;
 }
 static void pairs(vh_buf *b, qlisttbl_t *t, int backward) {
@@ -123,7 +125,7 @@ int main(int argc, char **argv) {
             char *name = NULL, *val = NULL;
             if (k) { name = vh_malloc(strlen(KN[k]) + 1); strcpy(name, KN[k]); }
             if (v) { val = vh_malloc(strlen(valstr(v)) + 1); strcpy(val, valstr(v)); }
-            long lkb = vh_locks - vh_unlocks, ovb = vh_overlap_copies, bfb = vh_badfree;
+            long lkb = VH_LOCK_BALANCE(), ovb = vh_overlap_copies, bfb = vh_badfree;
             int newmem = (int) (vh_step & 1);
             ob.n = 0; vh_bprintf(&ob, "%s", "");
             vh_watchdog(6);
@@ -166,8 +168,15 @@ int main(int argc, char **argv) {
             else if (!strcmp(op, "rmwalk")) {
                 qlisttbl_obj_t o; memset(&o, 0, sizeof o);
                 T->lock(T);
-                while (T->getnext(T, &o, NULL, false)) {
-                    if (ci ? !strcasecmp(o.name, name) : !strcmp(o.name, name)) { T->removeobj(T, &o); n++; }
+                /* as in the documentation of removeobj: the object may be a copy (newmem) - it stays the caller's after the removal */
+                while (T->getnext(T, &o, NULL, newmem)) {
+                    int hit = ci ? !strcasecmp(o.name, name) : !strcmp(o.name, name);
+                    int kk = kid(o.name), vv = vid(o.data, o.size);
+                    if (hit) { T->removeobj(T, &o); n++; }
+                    if (newmem) {
+                        if (kid(o.name) != kk || vid(o.data, o.size) != vv) copybad++;       /* the caller's copies were touched */
+                        keep(o.data, vv, o.size); free(o.name);
+                    }
                 }
                 T->unlock(T);
             } else if (!strcmp(op, "walk") || !strcmp(op, "walkname")) {
@@ -215,7 +224,7 @@ int main(int argc, char **argv) {
             pairs(&b, T, 0);
             vh_bprintf(&b, "],\"rents\":[");
             pairs(&b, T, 1);
-            vh_bprintf(&b, "],\"num\":%zu,\"leak\":%ld,\"lkd\":%ld,\"ovl\":%ld,\"bf\":%ld}", T->num, leak, (vh_locks - vh_unlocks) - lkb,
+            vh_bprintf(&b, "],\"num\":%zu,\"leak\":%ld,\"lkd\":%ld,\"ovl\":%ld,\"bf\":%ld}", T->num, leak, VH_LOCK_BALANCE() - lkb,
                        vh_overlap_copies - ovb, vh_badfree - bfb);
             vh_bflush(&b);
             if (!inject || nfail == 0 || ok ) break;
